@@ -37,9 +37,10 @@ def classify(ops, res):
     heads = sorted(set(re.findall(r"\((\w+)", last)))
     sig = form + ":" + "+".join(heads)
     if res.crash:
-        m = re.search(r"ERROR: AddressSanitizer: (\S+)|runtime error: ([^\n]*)", res.stderr)
-        tag = (m.group(1) or m.group(2)) if m else "crash"
-        return f"crash:{tag[:60]}:{sig}", f"harness aborted ({tag}) on {stm[-3:]}"
+        m = re.search(r"ERROR: AddressSanitizer: (\S+)|runtime error: ([^\n]*)|SUMMARY: \w+Sanitizer: (\S+)", res.stderr)
+        tag = (m.group(1) or m.group(2) or m.group(3)) if m else "crash"
+        tag = re.sub(r"[^A-Za-z0-9_-]+", "-", tag)
+        return f"crash:{tag[:48]}:{sig}", f"harness aborted ({tag}) on {stm[-3:]}"
     if res.oracle:
         m = re.search(r"!oracle (\S+?):", res.oracle[0] + ":")
         return f"oracle:{m.group(1)}:{sig}", f"independent oracle disagrees with remora ({res.oracle[0][-200:]}) on {stm[-3:]}"
@@ -237,7 +238,9 @@ def run(ctx):
     drv = ctx.driver("drv_c01")
     if not drv:
         return
-    ncases, nstmts, maxdepth, per_tu = (24, 8, 3, 24) if ctx.quick else (150, 10, 4, 30)
+    ncases, nstmts, maxdepth, per_tu = (30, 8, 3, 24) if ctx.quick else (160, 10, 4, 30)
+    if os.environ.get("C01_ONLY_CORPUS"):      # development aid: corpus cases only
+        ncases = 0
     program = gen_program(ctx, ncases, nstmts, maxdepth, per_tu)
     total = sum(len(st) for _, st in program)
     # statements the C++ compiler rejects (combinations the library cannot instantiate and the rule
@@ -262,7 +265,7 @@ def run(ctx):
         exe = compile_program(ctx, f"c01-{cname}", tus, flags)
         if not exe or isinstance(exe, list):
             continue
-        core.correspond(ctx, f"K-C01[{cname}]", cases, [exe], [drv], classify, keep_prefix=sum(1 for o in cases[-1] if not o.startswith(("stmt", "red"))))
+        core.correspond(ctx, f"K-C01[{cname}]", cases, [exe], [drv], classify, max_report=12, keep_prefix=sum(1 for o in cases[-1] if not o.startswith(("stmt", "red"))))
 
 
 def replay(ctx, rep):
